@@ -33,11 +33,12 @@ configuration that carries `s`'s metadata list. -/
 theorem reset_equiv_fixed (cfg : Cfg) (ops : List Op) :
     observe fixed (resetWith fixed (history fixed cfg ops)) =
       observe fixed (initWith cfg (history fixed cfg ops).metadata) := by
-  have h := run_invariant ops fixed fixed_good cfg (fun _ => True) (fun _ _ _ _ => trivial)
-    (fun s _ => fixed_heap s) (init cfg) ⟨trivial, rfl, init_allOK cfg⟩
+  have h := run_invariant ops fixed fixed_good cfg (fun s => s.dedupeLastRow = [])
+    (fun s op hs _ => dedupe_step fixed fixed_good s op hs)
+    (fun s _ => fixed_heap s) (init cfg) ⟨rfl, rfl, init_allOK cfg⟩
   have hs : stableOf (history fixed cfg ops) = stableOf (init cfg) := h.2.1
   have hok : AllOK (history fixed cfg ops) := h.2.2
-  rw [observe_resetWith fixed _ (fixed_heap _) (fun c hc => ⟨rfl, observed_resetFixed c (hok c hc)⟩),
+  rw [observe_resetWith fixed _ (fixed_heap _) (fun c hc => ⟨rfl, observed_resetFixed c (hok c hc)⟩) h.1,
     observe_initWith, hs]
   rfl
 
@@ -45,7 +46,7 @@ example : observe fixed (resetWith fixed (history fixed ⟨[⟨[[97]], 1, 8, [0,
     [.write 2 [{ ColVol.fresh ⟨⟨0, 1⟩, ⟨0, 3⟩, ⟨0, 1⟩, ⟨0, 3⟩, 1, 8, 1, 0, 2⟩ with
                   buffered := [5, 6], plainBuffered := [7], hasSwitchedToPlain := true, encoding := 0,
                   bufAllocated := true }],
-     .close (.committed 100 [] [2]) true 180])) =
+     .sortChunk [9, 9], .close (.committed 100 [] [2]) true 180])) =
     observe fixed (init ⟨[⟨[[97]], 1, 8, [0, 3, 8], 0, 2⟩], [⟨0, true, false⟩], []⟩) := by decide
 
 /-- without `SetKeyValueMetadata` in the history: exactly a fresh writer -/
@@ -130,6 +131,16 @@ theorem reset_equiv_asIs_false_F26 :
       [.write 2 [{ wrote ⟨⟨0, 1⟩, ⟨0, 2⟩, ⟨0, 1⟩, ⟨0, 2⟩, 6, 8, 6, 0, 0⟩ [1, 2] with bloomLength := 47 }],
        .flush (.failed 4 [] 1)]))).cols.map (·.vol.bloomLength)) = [47] := by decide
 
+/-- the dedupe state of a SortingWriter (`DropDuplicatedRows`): `Reset` does not clear
+`dedupe.lastRow`, so the property holds only because `sortAndWriteBufferedRows` clears it after
+every chunk. For a variant of the code that carries the last row to the next chunk, the last row
+of the previous file survives `Reset` (and the next file silently loses a leading equal row):
+history `sort a chunk ending in row [9]; close; reset`. -/
+theorem reset_equiv_false_dedupeCarry :
+    observe dedupeCarry (resetWith dedupeCarry (history dedupeCarry cfgA
+      [.write 2 [wrote ⟨⟨0, 1⟩, ⟨0, 1⟩, ⟨0, 1⟩, ⟨0, 1⟩, 2, 0, 2, 0, 0⟩ [1, 2]], .sortChunk [9],
+       .close (.committed 100 [] [2]) true 180])) ≠ observe dedupeCarry (init cfgA) := by decide
+
 /-- the full-strength statement is false for the as-is mirror -/
 theorem reset_equiv_asIs_false :
     ¬ ∀ (cfg : Cfg) (ops : List Op),
@@ -149,14 +160,14 @@ theorem reset_equiv_asIs_partial (cfg : Cfg) (ops : List Op)
       c.vol.plainBuffered = [] ∧ c.vol.bufAllocated = false ∧ c.vol.bloomLength = 0) :
     observe asIs (resetWith asIs (history asIs cfg ops)) =
       observe asIs (initWith cfg (history asIs cfg ops).metadata) := by
-  have h := run_invariant ops asIs asIs_good cfg (fun s => s.rowGroups = [])
-    (fun s op hs ho => rowGroups_step_noCommit asIs s op (hc op ho) hs)
-    (fun s hs => by rw [hs]; rfl) (init cfg) ⟨rfl, rfl, init_allOK cfg⟩
-  have hr : (history asIs cfg ops).rowGroups = [] := h.1
+  have h := run_invariant ops asIs asIs_good cfg (fun s => s.rowGroups = [] ∧ s.dedupeLastRow = [])
+    (fun s op hs ho => ⟨rowGroups_step_noCommit asIs s op (hc op ho) hs.1, dedupe_step asIs asIs_good s op hs.2⟩)
+    (fun s hs => by rw [hs.1]; rfl) (init cfg) ⟨⟨rfl, rfl⟩, rfl, init_allOK cfg⟩
+  have hr : (history asIs cfg ops).rowGroups = [] := h.1.1
   have hs : stableOf (history asIs cfg ops) = stableOf (init cfg) := h.2.1
   have hok : AllOK (history asIs cfg ops) := h.2.2
   rw [observe_resetWith asIs _ (by rw [hr]; rfl)
-      (fun c hc => ⟨rfl, observed_resetAsIs c (hok c hc) (hp c hc).1 (hp c hc).2.1 (hp c hc).2.2⟩),
+      (fun c hc => ⟨rfl, observed_resetAsIs c (hok c hc) (hp c hc).1 (hp c hc).2.1 (hp c hc).2.2⟩) h.1.2,
     observe_initWith, hs]
   rfl
 
